@@ -26,6 +26,10 @@ type SpecEnv struct {
 	fn     *ssa.Function
 	lookup func(name string) *Value
 	bound  map[string]*Value
+	// loop context
+	pre       *State
+	preLookup func(name string) *Value
+	water0    *Term
 }
 
 func (env *SpecEnv) child() *SpecEnv {
@@ -341,7 +345,7 @@ func (env *SpecEnv) index(a, i *Value) *Value {
 		}
 		var L []*Term
 		for j, s := range leafSorts(u.Elem()) {
-			L = append(L, Select(Select(env.st.MapVal(ks, j, s), a.One()), k.L[0]))
+			L = append(L, Select(env.st.Sel(env.st.MapVal(ks, j, s), a.One()), k.L[0]))
 		}
 		return &Value{T: u.Elem(), L: L}
 	}
@@ -381,6 +385,16 @@ func (env *SpecEnv) binary(x *ast.BinaryExpr) *Value {
 		return &Value{T: tBool, L: []*Term{Or(env.eval(x.X).One(), env.eval(x.Y).One())}}
 	}
 	a, b := env.eval(x.X), env.eval(x.Y)
+	if a.T == nil && b.T == nil && len(a.L) == 1 && a.L[0].Sort == SInt {
+		// raw object identities
+		switch x.Op {
+		case token.EQL:
+			return &Value{T: tBool, L: []*Term{Eq(a.L[0], b.L[0])}}
+		case token.NEQ:
+			return &Value{T: tBool, L: []*Term{Not(Eq(a.L[0], b.L[0]))}}
+		}
+		panic("spec: only == and != on object identities")
+	}
 	// nil comparisons
 	if a.T == types.Typ[types.UntypedNil] {
 		a = &Value{T: b.T, L: zeroLeaves(b.T)}
@@ -449,6 +463,36 @@ func (env *SpecEnv) callExpr(x *ast.CallExpr) *Value {
 			n.st = env.old
 		}
 		return n.eval(x.Args[0])
+	case "pre":
+		// value at entry of the enclosing loop (before the havoc)
+		n := *env
+		if env.pre != nil {
+			n.st = env.pre
+			n.lookup = env.preLookup
+		}
+		return n.eval(x.Args[0])
+	case "obj":
+		v := env.eval(x.Args[0])
+		return &Value{T: nil, L: []*Term{LObj(v.L[0])}}
+	case "fresh":
+		// allocated after the enclosing loop (or function) was entered
+		v := env.eval(x.Args[0])
+		w := env.water0
+		if w == nil {
+			panic("spec: fresh() outside a loop context")
+		}
+		return &Value{T: tBool, L: []*Term{IntCmp(">", LObj(v.L[0]), w)}}
+	case "preexisting":
+		v := env.eval(x.Args[0])
+		return &Value{T: tBool, L: []*Term{IntCmp("<=", LObj(v.L[0]), env.water0)}}
+	case "galloc":
+		if env.st.allocs == nil {
+			panic("spec: galloc() is not tracked here")
+		}
+		return &Value{T: tInt, L: []*Term{env.st.allocs}}
+	case "isnil":
+		v := env.eval(x.Args[0])
+		return &Value{T: tBool, L: []*Term{Eq(v.L[0], zeroOfSort(v.L[0].Sort))}}
 	case "forall", "exists":
 		id := x.Args[0].(*ast.Ident)
 		c := env.child()
@@ -593,9 +637,7 @@ func (e *Exec) nameLookup(st *State, fr *Frame, at *ssa.BasicBlock) func(string)
 		var best *Value
 		bestIdx := -1
 		for _, b := range fr.fn.Blocks {
-			if !b.Dominates(at) {
-				continue
-			}
+			// any definition already evaluated on this path is visible
 			for _, in := range b.Instrs {
 				switch in := in.(type) {
 				case *ssa.Alloc:
@@ -628,11 +670,11 @@ func (e *Exec) nameLookup(st *State, fr *Frame, at *ssa.BasicBlock) func(string)
 }
 
 // loopCut implements the invariant rule at loop header b.
-func (e *Exec) loopCut(st *State, fr *Frame, b, pred *ssa.BasicBlock) bool {
+func (e *Exec) loopCutOld(st *State, fr *Frame, b, pred *ssa.BasicBlock) bool {
 	ord := loopOrdinal(fr.fn, b)
 	var spec *LoopSpec
 	if fr.ct != nil {
-		spec = fr.ct.Loops[ord]
+		spec = fr.ct.Loops[fmt.Sprint(ord)]
 	}
 	if spec == nil {
 		spec = &LoopSpec{}
